@@ -8,7 +8,7 @@ N_SLOTS = 1792
 ALL5 = ['py', 'pyfast', 'c', 'pycmio', 'ccmio']
 
 TARGETS = gen_prog.BOUNDARY_ADDRS
-B16 = (0x0000, 0x0001, 0x7FFF, 0x8000, 0xFFFF, 0xFFFE, 0x8001, 0x7FFE, 0x0FFF, 0x1000, 0xF000, 0x00FF, 0x0100, 0x7F00, 0x80FF, 0x0800, 0xF7FF)
+B16 = (0x0000, 0x0001, 0x7FFF, 0x8000, 0xFFFF, 0xFFFE, 0x8001, 0x7FFE, 0x0FFF, 0x1000, 0xF000, 0x00FF, 0x0100, 0x7F00, 0x80FF, 0x0800, 0xF7FF, 0xFF00, 0xEFFF)
 BF = (0x00, 0x01, 0xFF, 0x10, 0x11, 0x02, 0x03, 0x12, 0x13, 0x40, 0x80, 0x04, 0xD7, 0xD6)
 
 def pick_ptr(rng):
